@@ -185,8 +185,8 @@ func (i UInt8) ExponentiateUInt8(other UInt8) UInt8 {
 		return 1
 	}
 	result := i
-	var j UInt8
-	for j = 2; j <= other; j++ {
+	// count down: an upward counter of the same type wraps around when `other` is the type's maximum
+	for j := other; j >= 2; j-- {
 		result *= i
 	}
 	return result
